@@ -126,12 +126,29 @@ fn extract<'tcx>(tcx: TyCtxt<'tcx>) {
         || extra.split(',').any(|c| c == crate_name);
 
     let mut fns = Vec::new();
+    let mut statics = Vec::new();
     let mut n_fn = 0usize;
     for ldid in tcx.hir_body_owners() {
         let did = ldid.to_def_id();
         let dk = tcx.def_kind(did);
         match dk {
             DefKind::Fn | DefKind::AssocFn | DefKind::Closure => {}
+            DefKind::Static { .. } | DefKind::Const { .. } | DefKind::AssocConst { .. } => {
+                // initialiser bodies of statics/consts (keyword tables etc.): HIR only
+                let sp = tcx.def_span(did);
+                if sp.from_expansion() {
+                    continue;
+                }
+                let (file, line) = span_loc(tcx, sp);
+                statics.push(J::Obj(vec![
+                    ("path", s(def_path(tcx, did))),
+                    ("dk", s(format!("{:?}", dk))),
+                    ("file", s(file)),
+                    ("line", J::Int(line as i128)),
+                    ("hir", hirtree::dump_body(tcx, ldid)),
+                ]));
+                continue;
+            }
             _ => continue,
         }
         n_fn += 1;
@@ -203,6 +220,7 @@ fn extract<'tcx>(tcx: TyCtxt<'tcx>) {
         ("prims", adts::dump_prim_layouts(tcx)),
         ("adts", adts),
         ("fns", J::Arr(fns)),
+        ("statics", J::Arr(statics)),
         ("extract_ms", J::Int(t0.elapsed().as_millis() as i128)),
     ]);
     let mut out = String::with_capacity(1 << 20);
